@@ -7826,6 +7826,25 @@ def aten_pixel_shuffle(self: TReal, upscale_factor: int) -> TReal:
     if len(self.shape) == 4:
         return op.DepthToSpace(self, blocksize=upscale_factor, mode="CRD")
 
+    if len(self.shape) >= 3 and all(isinstance(size, int) for size in self.shape):
+        # Static shape: compute the 4-D shape and the result shape here. Reshape's 0 ("copy the input dim")
+        # and -1 conventions give wrong shapes when the tensor has 0-size dimensions.
+        batch = list(self.shape[:-3])
+        channels, height, width = self.shape[-3:]
+        reshaped_self = op.Reshape(
+            self,
+            op.Constant(value_ints=[math.prod(batch), channels, height, width]),
+            allowzero=True,
+        )
+        depth_to_space = op.DepthToSpace(reshaped_self, blocksize=upscale_factor, mode="CRD")
+        output_shape = [
+            *batch,
+            channels // (upscale_factor * upscale_factor),
+            height * upscale_factor,
+            width * upscale_factor,
+        ]
+        return op.Reshape(depth_to_space, op.Constant(value_ints=output_shape), allowzero=True)
+
     # Reshaping input by collapsing all leading dimensions to match ONNX op requirement (4D)
     batch_dims = op.Shape(self, end=-3)
     chw_in_dims = op.Shape(self, start=-3)
